@@ -157,14 +157,22 @@ pub fn starts_with_parenthese(statement: &Statement) -> bool {
 
 fn expression_ends_with_prefix(expression: &Expression) -> bool {
     match expression {
-        Expression::Binary(binary) => expression_ends_with_prefix(binary.right()),
+        Expression::Binary(binary) => {
+            // an operand of lower precedence is written between parentheses
+            binary.operator().right_needs_parentheses(binary.right())
+                || expression_ends_with_prefix(binary.right())
+        }
         Expression::Call(_)
         | Expression::Parenthese(_)
         | Expression::Identifier(_)
         | Expression::Field(_)
         | Expression::Index(_)
         | Expression::TypeInstantiation(_) => true,
-        Expression::Unary(unary) => expression_ends_with_prefix(unary.get_expression()),
+        Expression::Unary(unary) => {
+            let inner = unary.get_expression();
+            matches!(inner, Expression::Binary(binary) if !binary.operator().precedes_unary_expression())
+                || expression_ends_with_prefix(inner)
+        }
         Expression::If(if_expression) => {
             expression_ends_with_prefix(if_expression.get_else_result())
         }
